@@ -37,16 +37,26 @@
 (* CimWireMCSharedNull.cfg  W = one shared VALUE.NULL DOM node: must FAIL. *)
 (* CimWireMCEmbEmpty.cfg    W = empty embedded-object array parsed as NULL:*)
 (*                     must FAIL.                                          *)
+(* CimWireMCKeyProp.cfg an instance WITH its path whose keybindings have   *)
+(*                     same-named properties (all CimWire!KeyRel cases x   *)
+(*                     the three path forms): must pass; ReqKeepsOwnKeys;  *)
+(*                     EmitKeyProp prints the trees for the binding.       *)
+(* CimWireMCPathFirst.cfg   W = properties added to an instance that       *)
+(*                     already has its path (key propagation): must FAIL.  *)
+(* CimWireMCEmbPath.cfg W = an embedded instance with a path is written   *)
+(*                     with it (the pinned tree): must FAIL.               *)
 (* CimWireMCSim.cfg    larger constants, -simulate: abstract trees for the *)
 (*                     binding (the harness concretises them).             *)
 (***************************************************************************)
 EXTENDS CimWire
 
 CONSTANTS Types, QualTypes, KeyTypes, Shapes, StrVals, CharVals, Names,
-          MaxEls, MaxDepth, MaxKids, MaxAttrs, Modes, W, RootKinds
+          MaxEls, MaxDepth, MaxKids, MaxAttrs, Modes, W, RootKinds,
+          EmbPaths      \* TRUE: embedded instances may have their path set
 
 StrValsSmall == {<<>>, <<"ltr">>, <<"sp", "cr">>, <<"lt", "amp">>}
 StrValsOne == {<<"lt", "cr">>}
+StrValsKey == {<<"ltr">>, <<"ltr", "sp", "amp">>}
 StrValsSim == {<<>>, <<"ltr">>, <<"sp", "ltr", "sp">>, <<"lt", "amp", "gt">>,
                <<"rbr", "rbr", "gt">>, <<"quot", "apos">>, <<"lf", "tab">>,
                <<"astral", "nbsp">>, <<"amp", "ltr", "ltr">>}
@@ -59,7 +69,7 @@ Blank(path, et, nm, lvl) ==
    arr |-> "", asize |-> -1, rc |-> "~", co |-> "~", pg |-> "N", emb |-> "N",
    ovr |-> "N", tsc |-> "N", tin |-> "N", trl |-> "N", host |-> "~",
    ns |-> "~", sup |-> "~", isnull |-> FALSE, val |-> <<>>, vt |-> <<>>,
-   cls |-> <<>>, kids |-> <<>>, scopes |-> <<>>, lvl |-> lvl]
+   cls |-> <<>>, kids |-> <<>>, scopes |-> <<>>, lvl |-> lvl, hp |-> "N"]
 
 IntTypes == {"uint8", "sint8", "uint16", "sint16", "uint32", "sint32",
              "uint64", "sint64"}
@@ -272,6 +282,14 @@ SetLoc ==
        els' = [els EXCEPT ![TopI].ns = "n", ![TopI].host = h]
   /\ UNCHANGED <<cur, last, mode, nattr>>
 
+(* an EMBEDDED instance object whose `path` attribute is set (e.g. an       *)
+(* instance retrieved from a server, used as embedded object value): the   *)
+(* path is not transmitted, the object must survive                        *)
+SetEmbPath ==
+  /\ EmbPaths /\ Top.et = "inst" /\ Top.lvl > 0 /\ Top.hp = "N"
+  /\ els' = [els EXCEPT ![TopI].hp = "Y"]
+  /\ UNCHANGED <<cur, last, mode, nattr>>
+
 SetSuper ==
   /\ Top.et = "class" /\ Top.sup = "~"
   /\ els' = [els EXCEPT ![TopI].sup = "x"]
@@ -303,6 +321,7 @@ Up == /\ Len(cur) > 1
 
 Next == \/ AddProp \/ AddRefProp \/ AddEmb \/ AddQual \/ AddMeth \/ AddParm
         \/ AddKey \/ AddRefKey \/ SetPath \/ SetLoc \/ SetSuper \/ SetAttr \/ Up
+        \/ SetEmbPath
 Spec == Init /\ [][Next]_vars
 
 (*---------------------------- invariants ---------------------------------*)
@@ -362,6 +381,31 @@ WSharedNull == [WFixed EXCEPT !.nullNode = "shared"]
 (* EMPTY array of embedded objects reads back as NULL                      *)
 (* (CimWireMCEmbEmpty.cfg must FAIL ImplMeetsReq)                          *)
 WEmbEmpty == [WFixed EXCEPT !.embEmpty = "null"]
+
+(* the pinned tree: an embedded instance that has a path is written with   *)
+(* the path (CimWireMCEmbPath.cfg must FAIL ImplMeetsReq: parse error)     *)
+WEmbPath == [WFixed EXCEPT !.embPath = "kept"]
+
+(* the parser handing the path to CIMInstance() BEFORE the properties are   *)
+(* added (deprecated key propagation of CIMInstance.__setitem__): a        *)
+(* keybinding of the instance's path is overwritten by the same-named      *)
+(* property (CimWireMCPathFirst.cfg must FAIL ImplMeetsReq)                *)
+WPathFirst == [WFixed EXCEPT !.pathAttach = "first"]
+
+(* the requirement protects the keybindings of the instance's own path     *)
+(* against the same-named properties: a tree in which a differing key took *)
+(* over the property's value / type is rejected, whatever the difference   *)
+ReqKeepsOwnKeys ==
+  (KeyRels(els) \cap {"shape", "type", "value"} # {})
+     => ObjFails(Ev(PropagateKeys(els))) # {}
+
+(* enumeration for the binding (CimWireMCKeyProp.cfg, one worker): every    *)
+(* tree with a keybinding in the instance's own path (added last, so that  *)
+(* every tree is printed once per path form), with the KeyRel case of each *)
+(* element                                                                 *)
+EmitKeyProp ==
+  (KeyRels(els) # {} /\ els[last].et = "kb" /\ Len(cur) = 2) =>
+     PrintT(<<"KEYPROP", mode, els, [i \in DOMAIN els |-> KeyRel(els, i)]>>)
 
 (* a wrong reading of DSP0201 (PROPAGATED defaulting to true): the          *)
 (* requirement must reject it (CimWireMCBadNorm.cfg must FAIL)              *)
